@@ -924,3 +924,129 @@ Example exact_tagfile_refuted_pinned :
   make_exact x_cfg [lit "mine"] [EType (lit "exact"); ECommandLine; ETag (lit "mine"); EVersion; ETag (lit "current")] =
     [EType (lit "exact"); ECommandLine; ETag (lit "mine"); EVersion; ETag (lit "current")].
 Proof. vm_compute. repeat split. Qed.
+
+(* ================================================================== histories: one long-lived instance *)
+(* The database changes between two resolutions put to ONE Eups instance, and it changes through that instance:
+   Eups.assignTag / unassignTag / declare / undeclare (Model/ResolveSeq.v gives their effect on the database view, for
+   the flavor of the instance).  The property speaks of the database as it is when the question is asked: whatever an
+   instance remembers from earlier calls (the product cache, memos) must be invisible.  In the model this is a triviality
+   - the resolver has no other argument than the view - and that is the point: the correspondence check puts histories
+   resolve / change / resolve to one real instance (cache on and off) and compares every answer with the model run on
+   the view current at that step, so any memo of the code that survives a change shows as a difference. *)
+
+From Eupsv Require Import Model.ResolveSeq Proofs.ResolveSeq.
+
+(* resolution depends on nothing but the current database view and the request: two histories (from any two initial
+   databases) that lead to the same view get the same answer to every question - findProductFromVRO, findTaggedProduct,
+   findProduct of a version, the resolution of setup *)
+Theorem resolution_is_a_function_of_the_view vcmp vmatch c flavors vro db1 ms1 db2 ms2 q :
+  view_after flavors db1 ms1 = view_after flavors db2 ms2 ->
+  answer_on vcmp vmatch c flavors vro (view_after flavors db1 ms1) q =
+  answer_on vcmp vmatch c flavors vro (view_after flavors db2 ms2) q.
+Proof. intros E. now rewrite E. Qed.
+Print Assumptions resolution_is_a_function_of_the_view.
+
+(* the answer an instance gives after a history of questions and changes is the resolver's answer on the view the
+   changes lead to; the questions asked before leave no trace *)
+Theorem history_answer_is_on_the_current_view vcmp vmatch c flavors vro db h q :
+  run_history vcmp vmatch c flavors vro db (h ++ [Ask q]) =
+  run_history vcmp vmatch c flavors vro db h ++
+  [answer_on vcmp vmatch c flavors vro (view_after flavors db (changes_of h)) q].
+Proof. apply history_last_answer. Qed.
+Print Assumptions history_answer_is_on_the_current_view.
+
+(* the changes keep the hypothesis of the designation theorems: no declared version name is an expression, no chain file
+   is called keep (declare refuses neither by itself: wf_mut asks it of the arguments) *)
+Theorem changes_keep_wellformed flavors db ms :
+  forallb wf_mut ms = true -> wf_db db = true -> wf_db (view_after flavors db ms) = true.
+Proof. apply wf_view_after. Qed.
+Print Assumptions changes_keep_wellformed.
+
+(* so after any history the product returned by the walk is the one the designation rule names FOR THE DATABASE AS IT IS
+   NOW *)
+Theorem history_walk_is_designation vcmp vmatch c flavors vro db h f depth rq :
+  let now := view_after flavors db (changes_of h) in
+  wf_db db = true -> forallb wf_mut (changes_of h) = true ->
+  total_order_on vcmp (names_of now (rq_name rq)) ->
+  exists r, last (run_history vcmp vmatch c flavors vro db (h ++ [Ask (QWalk f depth rq)])) (AFound None) = AWalk r /\
+            option_map fst r = designates_in vcmp vmatch c now (rq_name rq) (classify rq) f vro.
+Proof.
+  intros now W M T. rewrite history_last_answer, last_last. cbn [answer_on]. eexists. split; [reflexivity|].
+  apply walk_designates; [|exact T]. now apply wf_view_after.
+Qed.
+Print Assumptions history_walk_is_designation.
+
+(* assignTag(tag, product, version) without naming a stack writes the tag in the first stack declaring the version; when
+   no earlier stack carries the tag, that stack is from now on the first that has it, whatever the later stacks carry -
+   in particular when the tag was present only in a later stack before *)
+Theorem assign_makes_first_stack_win vcmp flavors db1 s db2 t n v :
+  let f := hd_flavor flavors in
+  str_eqb t (lit "latest") = false -> str_eqb t (lit "setup") = false ->
+  (forall s', In s' db1 -> declared s' n v f = false) -> declared s n v f = true ->
+  (forall s', In s' db1 -> carries s' n f t = false) ->
+  find_tagged vcmp (apply_mut flavors (db1 ++ s :: db2) (MAssign t n v None)) n t f = Some (found_in s n v f).
+Proof.
+  intros f L S H1 Hs HC. unfold find_tagged. rewrite L, S.
+  now apply (assign_first_stack flavors db1 s db2 t n v).
+Qed.
+Print Assumptions assign_makes_first_stack_win.
+
+(* unassignTag(tag, product): the first stack that carries the tag loses it, and the tag entry then yields what the
+   stacks after it designate *)
+Theorem unassign_uncovers_later_stacks vcmp flavors db1 s db2 t n :
+  let f := hd_flavor flavors in
+  str_eqb t (lit "latest") = false -> str_eqb t (lit "setup") = false ->
+  (forall s', In s' db1 -> carries s' n f t = false) -> carries s n f t = true ->
+  find_tagged vcmp (apply_mut flavors (db1 ++ s :: db2) (MUnassign t n None None)) n t f = find_tagged vcmp db2 n t f.
+Proof.
+  intros f L S HC Hs. unfold find_tagged. rewrite L, S.
+  now apply (unassign_first_carrier flavors db1 s db2 t n).
+Qed.
+Print Assumptions unassign_uncovers_later_stacks.
+
+(* undeclare(product, version): the first stack declaring the version loses it; a version entry then yields the next
+   declaration on the path *)
+Theorem undeclare_uncovers_later_stacks flavors db1 s db2 n v :
+  let f := hd_flavor flavors in
+  (forall s', In s' db1 -> declared s' n v f = false) -> declared s n v f = true ->
+  find_version (apply_mut flavors (db1 ++ s :: db2) (MUndeclare n v None)) n v f = find_version db2 n v f.
+Proof. apply undeclare_first_stack. Qed.
+Print Assumptions undeclare_uncovers_later_stacks.
+
+(* declare(product, version, stack, tag=t): the tag leaves every other stack in which it named an existing version, so
+   the version just declared is the one the tag designates *)
+Theorem declare_with_tag_moves_the_tag vcmp flavors db i n v t :
+  let f := hd_flavor flavors in
+  str_eqb t (lit "latest") = false -> str_eqb t (lit "setup") = false ->
+  (exists s, In s db /\ st_id s = i) ->
+  (forall s1 s2, In s1 db -> In s2 db -> st_id s1 = i -> st_id s2 = i -> s1 = s2) ->
+  exists s, In s db /\ st_id s = i /\
+  find_tagged vcmp (apply_mut flavors db (MDeclare n v i (Some t))) n t f = Some (found_in s n v f).
+Proof.
+  intros f L S E U. unfold find_tagged. rewrite L, S. now apply declare_moves_tag.
+Qed.
+Print Assumptions declare_with_tag_moves_the_tag.
+
+(* the circumstance as a history: beta is assigned in the second stack only; the instance is asked (-t beta), tags foo
+   2.0 beta without naming a stack, and is asked again: first s2's 1.1, then s1's 2.0; after unassigning it s2's again;
+   after undeclaring s2's 1.1 beta is gone with it and the walk reaches current *)
+Definition h_s1 : stackv :=
+  mkStack (lit "s1") [(lit "foo", lit "1.0", lit "Linux64"); (lit "foo", lit "2.0", lit "Linux64")]
+          [(lit "foo", lit "Linux64", lit "current", lit "1.0")].
+Definition h_s2 : stackv :=
+  mkStack (lit "s2") [(lit "foo", lit "1.1", lit "Linux64")] [(lit "foo", lit "Linux64", lit "beta", lit "1.1")].
+Definition h_ask : event := Ask (QWalk (lit "Linux64") 1 (ex_rq None None)).
+Definition h_found (s v t : string) : answer :=
+  AWalk (Some (mkFound (lit s) (lit "foo") (lit v) (lit "Linux64"), (ETag (lit t), None))).
+Arguments h_found (s v t)%string.
+
+Example history_example :
+  run_history vcmp_simple vmatch_simple ex_cfg ex_flavors (ex_vro [lit "beta"] []) [h_s1; h_s2]
+    [h_ask; Change (MAssign (lit "beta") (lit "foo") (lit "2.0") None); h_ask;
+     Change (MUnassign (lit "beta") (lit "foo") None None); h_ask;
+     Change (MUndeclare (lit "foo") (lit "1.1") None); h_ask;
+     Change (MDeclare (lit "foo") (lit "3.0") (lit "s2") (Some (lit "current"))); h_ask] =
+  [h_found "s2" "1.1" "beta"; h_found "s1" "2.0" "beta"; h_found "s2" "1.1" "beta"; h_found "s1" "1.0" "current";
+   h_found "s2" "3.0" "current"] /\
+  wf_db [h_s1; h_s2] = true.
+Proof. vm_compute. split; reflexivity. Qed.
